@@ -1,6 +1,6 @@
 """C03 -- signatures depend only on program content, never on the environment."""
 import re
-from contracts import sigs, hashing, syntactic
+from contracts import sigs, hashing, syntactic, retrieve_rec
 
 ID = "C03"
 LEVEL = "other"
@@ -8,7 +8,7 @@ EXPLANATION = (
     "Proved: every function between a Python value and a signature string equals a pinned spec function for ALL inputs -- dds_hash._dds_hash0 (spec_hash), _algo_str/_algo_bytes, "
     "dds_hash_commut (the exact string: the 64-character digest for one pair, hex_format(xor_fold) otherwise; int(.,16) always applied to hex), _fis_to_siglist (indexed 'fun_dep_<i>' keys), "
     "_build_return_sig (spec_hash_commut of body ++ arg ++ dep_<p> ++ fun_dep_<i> ++ ext_dep_<lp> ++ ext_variable_<lp>, each comprehension's key format checked on the real body). "
-    "A change of packing format, separator, key string or marker fails an ensures clause. Frame clauses on the real AST: the process-wide interaction cache is never written; identity / environment "
+    "A change of packing format, separator, key string or marker fails an ensures clause. The exact result of every case of the name resolution (_retrieve_object_rec: None vs external object vs authorized object and its path) is pinned. Frame clauses on the real AST: the process-wide interaction cache is never written; identity / environment "
     "values (id, hash, cwd, time, __file__, environ) do not occur in signature code outside log lines and listed harmless uses; set iteration reaches signatures only through sorted(). "
     "Bounded: the corpus is evaluated under hash seeds, cwd, relocation, store kinds, extra_debug and after earlier evaluations, and compared with pinned signatures."
 )
@@ -16,8 +16,15 @@ TRUSTED = ["A-ENGINE", "A-H1..A-H4 sha256 idealised", "xor is associative and co
 ASSUMPTIONS = ["A-H2", "A-H3", "A-UTF8", "A-PACK", "A-REC", "A-LOG"]
 LEVEL_TEXT = "Deductive proof that the signature-computing functions equal pinned spec functions (byte format for all inputs) + syntactic frame clauses + bounded environment variants with pinned signatures; 'other' because of the bounded part and one open finding."
 DESIGN_REF = "5 (C03)"
-REPLAY = {}
-_OWN = re.compile(r"^(dds_hash_commut#|_fis_to_siglist#|_build_return_sig#|_algo_|dds_hash\._dds_hash0#(ensures:result_is_spec_hash|comp\d|signals)|signatures#frame)")
+class _Replay(dict):
+    def get(self, key, default=None):
+        if key.startswith("ObjectRetrieval._retrieve_object_rec#"):
+            return "h_retrieve.resolution_cases"
+        return dict.get(self, key, default)
+
+
+REPLAY = _Replay()
+_OWN = re.compile(r"^(dds_hash_commut#|_fis_to_siglist#|_build_return_sig#|_algo_|dds_hash\._dds_hash0#(ensures:result_is_spec_hash|comp\d|signals)|signatures#frame|ObjectRetrieval\._retrieve_object_rec#ensures:pinned_)")
 
 
 def owns(name, kind):
@@ -25,7 +32,9 @@ def owns(name, kind):
 
 
 def specs():
-    return [c() for c in sigs.SPECS] + [c() for c in hashing.SPECS]
+    # name resolution decides what a signature mentions (an untracked name reported as an ExternalObject is named in its
+    # reader's signature, one reported as None is not): the exact result of every case is pinned here
+    return [c() for c in sigs.SPECS] + [c() for c in hashing.SPECS] + [c() for c in retrieve_rec.SPECS]
 
 
 def lemmas():
@@ -35,4 +44,4 @@ def lemmas():
 def bounded(tier, seed, pr):
     from pyvc.boundedrun import run_bounded
 
-    return [run_bounded(pr, "b_corpus.py", "corpus_environment_variants_and_pinned_signatures", args={"mode": "c03"}, timeout=1500)]
+    return [run_bounded(pr, "b_corpus.py", "corpus_environment_variants_and_pinned_signatures", args={"mode": "c03"}, timeout=1500), run_bounded(pr, "b_retrieve.py", "resolution_vs_case_table_exact", args={"mode": "exact"})]
